@@ -427,3 +427,8 @@ def load_known():
         return {}
     d = json.load(open(p))
     return {(e['property'], e['key']): e for e in d.get('findings', [])}
+
+
+def known_status(prop, key):
+    e = load_known().get((prop, key))
+    return e['status'] if e else None
